@@ -53,7 +53,62 @@ func structuredSeeds() [][]byte {
 		}
 		seeds = append(seeds, append(append([]byte{}, x...), x...), append(append(append([]byte{}, x...), x...), x...))
 	}
+	// words with periodic stretches, repeated (tandem repeats of the rank sort
+	// plus budget exhaustion: the neighbourhood of trPartialCopy), and long
+	// uniform binary strings (trHeapSort)
+	for sd := uint64(1); sd <= 12; sd++ {
+		seeds = append(seeds, periodicWordRepeated(sd))
+	}
+	for sd := uint64(1); sd <= 3; sd++ {
+		b := make([]byte, 2500)
+		x := sd
+		for i := range b {
+			x += 0x9e3779b97f4a7c15
+			z := x
+			z = (z ^ (z >> 30)) * 0xbf58476d1ce4e5b9
+			z = (z ^ (z >> 27)) * 0x94d049bb133111eb
+			b[i] = byte((z^(z>>31))>>33) & 1
+		}
+		seeds = append(seeds, b)
+	}
 	return seeds
+}
+
+// periodicWordRepeated is a deterministic member of the text family "word with
+// periodic stretches repeated" (suffixgen.go, family 13).
+func periodicWordRepeated(seed uint64) []byte {
+	x := seed * 0x2545f4914f6cdd1d
+	next := func(n int) int {
+		x += 0x9e3779b97f4a7c15
+		z := x
+		z = (z ^ (z >> 30)) * 0xbf58476d1ce4e5b9
+		z = (z ^ (z >> 27)) * 0x94d049bb133111eb
+		return int((z ^ (z >> 31)) % uint64(n))
+	}
+	k := 2 + next(2)
+	var w []byte
+	for p := 1 + next(3); p > 0; p-- {
+		for i := next(30); i > 0; i-- {
+			w = append(w, byte(next(k)))
+		}
+		u := make([]byte, 2+next(5))
+		for i := range u {
+			u[i] = byte(next(k))
+		}
+		for j := 6 + next(26); j > 0; j-- {
+			w = append(w, u...)
+		}
+	}
+	for i := next(30); i > 0; i-- {
+		w = append(w, byte(next(k)))
+	}
+	reps, rot := 4+next(5), next(len(w))
+	total := len(w)*reps - next(4)
+	out := make([]byte, total)
+	for i := range out {
+		out[i] = w[(rot+i)%len(w)]
+	}
+	return out
 }
 
 // FuzzC09: raw bytes are the text.
@@ -66,6 +121,9 @@ func FuzzC09(f *testing.F) {
 		if len(text) > 1<<16 {
 			return
 		}
+		// the watchdog covers a Sort that never returns
+		beginCase("C09", "fuzz", func() any { return textCase{Text: cloneBytes(text), Family: "fuzz"} })
+		defer endCase()
 		if msg, bad := checkSuffix(text); bad {
 			c := textCase{Text: cloneBytes(text), Family: "fuzz"}
 			recordFailure("C09", "fuzz", c, msg)
